@@ -14,4 +14,8 @@ for name, src in [("simdrv", SIMDRV_SRC), ("h_http", ["h_http.cpp"]), ("h_pcap",
     if exe is None:
         print(err); sys.exit(1)
     print("setup ok:", exe)
+exe, err = vlib.build_harness("simdrv", SIMDRV_SRC, "rel")
+if exe is None:
+    print(err); sys.exit(1)
+print("setup ok:", exe)
 PY
